@@ -117,6 +117,7 @@ def parseOutcome (s : String) : Outcome :=
   | ["z"] => .zero
   | ["ze"] => .zeroErr
   | ["k"] => .ok
+  | ["l", k] => .lost (k.toInt?.getD 98)
   | _ => .exhausted
 
 def parseEnv (fs : List String) : Option Env :=
@@ -132,6 +133,7 @@ def parseEnv (fs : List String) : Option Env :=
     else if x.startsWith "s=" then do
       let n ← (x.drop 2).toString.toNat?
       some { env with stale := n }
+    else if x == "a=1" then some { env with ackIgn := true }
     else none) {}
 
 def parseCall (x : String) : Option BuilderCall :=
